@@ -79,6 +79,18 @@ func (s *countSampler) Sample(l zerolog.Level) bool { s.calls++; s.last = l; ret
 func want(ll, gl, el int) bool { return el >= ll && el >= gl && el != 7 }
 
 // checkTriple exercises one triple through WithLevel, with a recording sampler.
+var wrapNames = []string{"SyncWriter", "MultiLevelWriter", "SyncWriter(MultiLevelWriter)", "MultiLevelWriter(SyncWriter)", "FilteredLevelWriter(min)"}
+
+func wrappedWriters(w *lw) []io.Writer {
+	return []io.Writer{
+		zerolog.SyncWriter(w),
+		zerolog.MultiLevelWriter(w),
+		zerolog.SyncWriter(zerolog.MultiLevelWriter(w)),
+		zerolog.MultiLevelWriter(zerolog.SyncWriter(w)),
+		&zerolog.FilteredLevelWriter{Writer: w, Level: zerolog.Level(-128)},
+	}
+}
+
 func checkTriple(t *testing.T, w *lw, ll, gl, el int) {
 	zerolog.SetGlobalLevel(zerolog.Level(gl))
 	base := zerolog.New(w).Level(zerolog.Level(ll))
@@ -101,6 +113,19 @@ func checkTriple(t *testing.T, w *lw, ll, gl, el int) {
 	}
 	if exp && w.lvl != zerolog.Level(el) {
 		failf(t, tripleFail{ll, gl, el, "WithLevel", fmt.Sprintf("WriteLevel received %d", w.lvl)})
+	}
+	// the same event through the writer wrappers that stand between a logger and a level-aware
+	// destination: WriteLevel still receives exactly the event's level (NoLevel and custom levels included)
+	for wi, wrap := range wrappedWriters(w) {
+		w.n, w.lvl = 0, -99
+		wl := zerolog.New(wrap).Level(zerolog.Level(ll))
+		wl.WithLevel(zerolog.Level(el)).Msg("m")
+		if (w.n == 1) != exp || w.n > 1 {
+			failf(t, tripleFail{ll, gl, el, "WithLevel via " + wrapNames[wi], fmt.Sprintf("writes=%d, want written=%v", w.n, exp)})
+		}
+		if exp && w.lvl != zerolog.Level(el) {
+			failf(t, tripleFail{ll, gl, el, "WithLevel via " + wrapNames[wi], fmt.Sprintf("the destination's WriteLevel received %d (-100 = plain Write was called instead)", w.lvl)})
+		}
 	}
 	// admitting / rejecting sampler
 	for _, admit := range [2]bool{true, false} {
